@@ -16,7 +16,7 @@ Definition in_handshake (s : state) (c : N) (st : cstage) : Prop :=
 (* the client frames of connection c *)
 Definition client_label (c : N) (l : label) : Prop :=
   match l with
-  | LMethod c' _ _ | LHeader c' _ _ _ _ | LBody c' _ _ => c' = c
+  | LMethod c' _ _ | LHeader c' _ _ _ _ | LBody c' _ _ | LBadMethod c' _ => c' = c
   | _ => False
   end.
 
@@ -214,11 +214,21 @@ Proof.
     apply N.eqb_eq in Eh. subst h. rewrite (ensure_chan_0 s c cn ch0 Ec Hch). rewrite Hg, Hs, Hcur.
     rewrite Bool.andb_false_r.
     drop_err cfg fx s c Hh Hown.
+  - (* LBadMethod *)
+    destruct (h =? 0) eqn:Eh; cbn [negb].
+    2:{ destruct Hdrop as (A & B & C). split; [exact A|]. cbn. split; [exact B|]. rewrite C. split; [cbn; auto|].
+        intros h0 f0 Hin. cbn in Hin. destruct Hin as [Hin|[]]. inversion Hin. auto. }
+    apply N.eqb_eq in Eh. subst h. rewrite (ensure_chan_0 s c cn ch0 Ec Hch).
+    drop_err cfg fx s c Hh Hown.
 Qed.
 
 (* frames addressed to a connection the broker no longer knows do nothing *)
 Lemma client_label_on_gone cfg fx s c l : get_conn s c = None -> client_label c l -> step cfg fx s l = (s, []).
 Proof. intros Ec Hl. destruct l; cbn in Hl; try contradiction; subst; cbn [step]; rewrite Ec; reflexivity. Qed.
+
+(* a heartbeat on channel 0 is legal at any time and does nothing *)
+Lemma heartbeat_is_noop cfg fx s c : step cfg fx s (LHeartbeat c 0) = (s, []).
+Proof. cbn [step]. destruct (get_conn s c); reflexivity. Qed.
 
 Lemma run_on_gone cfg fx c ls : forall s, get_conn s c = None -> Forall (client_label c) ls -> run cfg fx s ls = (s, []).
 Proof.
